@@ -1,3 +1,4 @@
+import DatamonVerif.Model.Paths
 /-! Model of bundle upload / download (C04): `pkg/core/bundle_pack.go`, `bundle_unpack.go`.
 
 The content store is abstract here: `key : Bytes → K` gives the key of a content (C02: the
@@ -18,14 +19,10 @@ deriving DecidableEq, Repr
 /-- does `s` start with `p`? -/
 def pre (p s : String) : Bool := p.toList.isPrefixOf s.toList
 
-/-- `.conflicts` / `.checkpoints` at the root, with the optional `/` or `./` lead the regexp allows -/
-def special (word s : String) : Bool :=
-  ["", "/", "./"].any fun lead => s == lead ++ word || pre (lead ++ word ++ "/") s
-
-/-- `model.IsGeneratedFile` (`genFileRe`) as a direct predicate -/
-def isGenerated (s : String) : Bool :=
-  pre ".datamon/" s || pre "/.datamon/" s || s == "/.datamon" || s == ".datamon" ||
-  pre "./.datamon/" s || s == "./.datamon" || special ".conflicts" s || special ".checkpoints" s
+/-- `model.IsGeneratedFile`: the predicate of the C20 model (`Paths.isGenerated`, proved exact
+    against the reserved locations by `C20_isGenerated_exact` and tied to the `genFileRe` literal
+    by `C20_facts_genFileRe`) -/
+def isGenerated (s : String) : Bool := Paths.isGenerated s.toList
 
 /-- the list of files an upload considers: all keys of the consumable store, or the explicit
     list with repeated keys dropped (first occurrence kept) -/
